@@ -2,11 +2,14 @@ package c09
 
 import (
 	"context"
+	"errors"
 	"strconv"
 	"sync"
 	"sync/atomic"
 	"time"
 
+	apierrors "k8s.io/apimachinery/pkg/api/errors"
+	"k8s.io/apimachinery/pkg/runtime/schema"
 	"k8s.io/apimachinery/pkg/types"
 	"sigs.k8s.io/controller-runtime/pkg/client"
 )
@@ -36,6 +39,33 @@ type recorder struct {
 	writes []write
 	jitter bool // concurrent mode: sleep a little inside client calls to widen race windows
 	seed   uint64
+
+	// fault script, per request tag (= per resource (kind, namespace, name)): see fault
+	faults   map[int]fault
+	attempts map[int]int // Status().Update attempts seen per tag
+	failed   int         // injected failures so far
+}
+
+// fault: what the API server does to the status writes of one resource.
+//
+//	'P' persistent: every Status().Update is rejected (webhook / validation / permanent conflict)
+//	'G' persistent: every Get fails with a non-NotFound error
+//	'N' the resource is gone: Get answers NotFound (no write, no retry; not a failure of the updater)
+//	'T' transient: the first n Status().Update attempts are rejected, then it succeeds (n < 4 = the backoff's steps)
+type fault struct {
+	kind byte
+	n    int
+}
+
+var errInjected = errors.New("verif: injected API failure")
+
+func tagOfKey(obj client.Object, key types.NamespacedName) int {
+	n, err := strconv.Atoi(key.Name)
+	k := kindIndex(obj)
+	if err != nil || k < 0 || key.Namespace != "verif" {
+		return -1
+	}
+	return n*len(reqKinds) + k
 }
 
 func (c *recorder) pause() {
@@ -50,6 +80,17 @@ func (c *recorder) pause() {
 
 func (c *recorder) Get(_ context.Context, key types.NamespacedName, obj client.Object, _ ...client.GetOption) error {
 	c.pause()
+	if c.faults != nil {
+		switch f := c.faults[tagOfKey(obj, key)]; f.kind {
+		case 'G':
+			c.mu.Lock()
+			c.failed++
+			c.mu.Unlock()
+			return errInjected
+		case 'N':
+			return apierrors.NewNotFound(schema.GroupResource{Resource: "verif"}, key.Name)
+		}
+	}
 	obj.SetNamespace(key.Namespace)
 	obj.SetName(key.Name)
 	return nil
@@ -84,6 +125,23 @@ func (s statusWriter) Update(ctx context.Context, obj client.Object, _ ...client
 	}
 	if err != nil {
 		tag = 999999 // a write that is not the result of any submitted request
+	}
+	if s.c.faults != nil {
+		s.c.mu.Lock()
+		if s.c.attempts == nil {
+			s.c.attempts = map[int]int{}
+		}
+		s.c.attempts[tag]++
+		n := s.c.attempts[tag]
+		f := s.c.faults[tag]
+		reject := f.kind == 'P' || (f.kind == 'T' && n <= f.n)
+		if reject {
+			s.c.failed++
+		}
+		s.c.mu.Unlock()
+		if reject {
+			return errInjected
+		}
 	}
 	s.c.mu.Lock()
 	s.c.writes = append(s.c.writes, write{op: op, tag: tag, stamp: s.c.clock.Add(1)})
